@@ -30,6 +30,17 @@ package container
 //@   ensures [C17,C01] loader: result1 == nil ==> result0 != nil && has(ctn, cid) && box(result0) == ctn[cid]
 //@   assigns [C20] nothing
 //@
+//@ // the single invocation of a container: the one entry that is an invocation; none or several are errors
+//@ func (Reader).GetInvocation
+//@   ensures [C09] total: true
+//@   ensures [C17] found: result1 == nil ==> result0 != nil && (exists c cid.Cid :: has(ctn, c) && ctn[c] is *invocation.Token && ctn[c].(*invocation.Token) == result0)
+//@   ensures [C17] single: result1 == nil ==> (forall c cid.Cid :: {ctn[c]} has(ctn, c) && ctn[c] is *invocation.Token && ctn[c].(*invocation.Token) != nil ==> ctn[c].(*invocation.Token) == result0)
+//@   ensures [C17] none: (forall c cid.Cid :: {ctn[c]} has(ctn, c) ==> !(ctn[c] is *invocation.Token)) ==> result1 == ErrNotFound
+//@   assigns [C20] nothing
+//@   loop 0: invariant res == nil ==> (forall c cid.Cid :: {ctn[c]} seen(ctn, c) && ctn[c] is *invocation.Token ==> ctn[c].(*invocation.Token) == nil)
+//@   loop 0: invariant res != nil ==> (exists c cid.Cid :: seen(ctn, c) && has(ctn, c) && ctn[c] is *invocation.Token && ctn[c].(*invocation.Token) == res)
+//@   loop 0: invariant forall c cid.Cid :: {ctn[c]} seen(ctn, c) && ctn[c] is *invocation.Token && ctn[c].(*invocation.Token) != nil ==> ctn[c].(*invocation.Token) == res
+//@
 //@ // ---- C17 / C18: the byte-slice variants are the stream variants over the same bytes ---------------------
 //@ // cborErr / cborHas, carErr / carHas name the outcome of the stream readers as functions of the content
 //@ ghost func cborErr(c string) error
